@@ -250,13 +250,24 @@ func propSequence(t *rapid.T) {
 	n := rapid.IntRange(2, 5).Draw(t, "calls")
 	var trace []string
 	rels := map[string]int{}
+	affinePrev := false
 	for i := 0; i < n; i++ {
-		rel := gen.Sampled([]string{"same", "lambda", "lambda", "lambda^2", "neg", "neg-lambda", "double", "plus-G", "fresh"}).Draw(t, fmt.Sprintf("rel%d", i))
+		rel := gen.Sampled([]string{"same", "lambda", "lambda", "lambda^2", "neg", "neg-lambda", "double", "plus-G", "fresh", "sibling-rep", "sibling-rep"}).Draw(t, fmt.Sprintf("rel%d", i))
 		if i == 0 {
 			rel = "first"
 		}
 		pt := cur
+		var given *secp256k1.Point
 		switch rel {
+		case "sibling-rep":
+			// hooks only: another group element whose raw X and Y equal the previous point's affine x and y
+			// (the previous call got the affine object), so anything keyed on part of the representation
+			// takes one for the other
+			if g, q, ok := sibling(cur, rapid.Bool().Draw(t, fmt.Sprintf("sib%d", i))); ok && affinePrev {
+				given, pt = g, q
+			} else {
+				rel = "same"
+			}
 		case "lambda":
 			pt = ref.Pt{X: ref.MulM(cur.X, ref.Beta, ref.P), Y: new(big.Int).Set(cur.Y)}
 		case "lambda^2":
@@ -279,6 +290,10 @@ func propSequence(t *rapid.T) {
 		s, kind := gen.GLVScalar(t, fmt.Sprintf("s%d", i))
 		entry := gen.Sampled(publicEntries).Draw(t, fmt.Sprintf("entry%d", i))
 		lp, ls := lib.Pt(pt), lib.Sc(s)
+		if given != nil {
+			lp = given
+		}
+		affinePrev = true
 		rcv := secp256k1.NewIdentityPoint()
 		switch entry {
 		case "ScalarMult":
@@ -300,7 +315,7 @@ func propSequence(t *rapid.T) {
 	for r := range rels {
 		cl = append(cl, "rel:"+r)
 	}
-	stat.Case("sequence", cl, rels["lambda"]+rels["lambda^2"]+rels["neg"]+rels["neg-lambda"]+rels["same"] > 0, []byte(fmt.Sprintf("%v|%x", trace, cur.Uncompressed())), func() any {
+	stat.Case("sequence", cl, rels["lambda"]+rels["lambda^2"]+rels["neg"]+rels["neg-lambda"]+rels["same"]+rels["sibling-rep"] > 0, []byte(fmt.Sprintf("%v|%x", trace, cur.Uncompressed())), func() any {
 		return map[string]any{"calls": trace}
 	})
 }
